@@ -221,9 +221,129 @@ theorem fileOps (s0 : VF) (hk : s0.seekable = true) : InvOps (SameFile s0) where
   take := fun _ h _ => sameFile_trans h ⟨rfl, rfl, rfl, rfl, rfl, rfl, rfl, rfl⟩
   exec := fun f p s h hnr => sameFile_trans h (same_execPlan f p s hnr)
 
+/-- `o` is the offset of a page of the file with that serial number and granule position -/
+def Real (ph : Phys) (o s g : Int) : Prop := ∃ p, p ∈ ph.pages ∧ p.off = o ∧ p.serial = s ∧ p.gran = g
+
+theorem nextPage_sound (ph : Phys) (c : Cur) (b : Int) (r : Int) (p : Page) (c' : Cur)
+    (e : nextPage ph c b = (r, p, c')) (h : r ≥ 0) : p ∈ ph.pages ∧ r = p.off ∧ p.off ≥ c.off := by
+  unfold nextPage at e
+  simp only [] at e
+  cases hf : ph.pages.find? (fun p => decide (p.off ≥ c.off ∧ p.off < stallAt ph c.off)) with
+  | none =>
+      rw [hf] at e
+      simp only [] at e
+      split at e
+      · injection e with e1 _; rw [← e1] at h; exact absurd h (by decide)
+      · split at e
+        · injection e with e1 _; rw [← e1] at h; exact absurd h (by decide)
+        · injection e with e1 _; rw [← e1] at h; exact absurd h (by decide)
+  | some q =>
+      rw [hf] at e
+      simp only [] at e
+      have hm := Array.mem_of_find?_eq_some hf
+      have hp := Array.find?_some hf
+      simp only [decide_eq_true_eq] at hp
+      split at e
+      · injection e with e1 _; rw [← e1] at h; exact absurd h (by decide)
+      · split at e
+        · injection e with e1 _; rw [← e1] at h; exact absurd h (by decide)
+        · injection e with e1 e2
+          injection e2 with e2 _
+          subst e1 e2
+          exact ⟨hm, rfl, hp.1⟩
+
+/-- the forward scan inside the backward searches only ever reports pages of the file -/
+theorem prevScan_sound (ph : Phys) (end_ : Int) (serials : List Int) (want : Int) :
+    ∀ (fuel : Nat) (c : Cur) (o pf rs rg pg : Int), (o = -1 ∨ Real ph o rs rg) → (pf = -1 ∨ Real ph pf want pg) →
+      let r := prevScan ph end_ serials want fuel c o pf rs rg pg
+      (r.1 = FUEL ∨ r.1 = -1 ∨ Real ph r.1 r.2.2.1 r.2.2.2.1) ∧ (r.2.1 = -1 ∨ Real ph r.2.1 want r.2.2.2.2.1) := by
+  intro fuel
+  induction fuel with
+  | zero => intro c o pf rs rg pg _ _; unfold prevScan; exact ⟨Or.inl rfl, Or.inl rfl⟩
+  | succ f ih =>
+      intro c o pf rs rg pg ha hb
+      unfold prevScan
+      by_cases h1 : c.off < end_
+      · simp only [h1, not_true_eq_false, if_false]
+        cases hn : nextPage ph c (end_ - c.off) with
+        | mk ret rest =>
+            obtain ⟨page, c1⟩ := rest
+            simp only []
+            by_cases h2 : ret < 0
+            · simp only [h2, if_true]
+              exact ⟨Or.inr ha, hb⟩
+            · simp only [h2, if_false]
+              obtain ⟨hm, hr, _⟩ := nextPage_sound ph c _ ret page c1 hn (by omega)
+              apply ih
+              · exact Or.inr ⟨page, hm, hr.symm, rfl, rfl⟩
+              · by_cases hc : serials.contains page.serial = true
+                · simp only [hc, if_true]
+                  by_cases hw : page.serial = want
+                  · simp only [hw, if_true]
+                    exact Or.inr ⟨page, hm, hr.symm, hw, rfl⟩
+                  · simp only [hw, if_false]
+                    exact hb
+                · simp only [hc]
+                  exact Or.inl rfl
+      · simp only [h1, not_false_eq_true, if_true]
+        exact ⟨Or.inr ha, hb⟩
+
+/-- `_get_prev_page_serial`: a non-negative answer is the offset, serial number and granule position of one page of the file -/
+theorem prevPageSerial_sound (ph : Phys) (begin_ : Int) (serials : List Int) (want gran0 : Int) :
+    ∀ (fuel : Nat) (b pg : Int),
+      let r := prevPageSerial ph begin_ serials want gran0 fuel b pg
+      r.1 ≥ 0 → Real ph r.1 r.2.1 r.2.2.1 := by
+  intro fuel
+  induction fuel with
+  | zero => intro b pg; unfold prevPageSerial; intro _ h; exact absurd (show FUEL ≥ 0 from h) (by decide)
+  | succ f ih =>
+      intro b pg
+      unfold prevPageSerial
+      simp only []
+      generalize hb1 : (if b - CHUNKSIZE < 0 then (0 : Int) else b - CHUNKSIZE) = b1
+      have hs := prevScan_sound ph begin_ serials want (ph.pages.size + 1) (seekCur b1) (-1) (-1) (-1) (-1) pg (Or.inl rfl) (Or.inl rfl)
+      cases hps : prevScan ph begin_ serials want (ph.pages.size + 1) (seekCur b1) (-1) (-1) (-1) (-1) pg with
+      | mk o rest =>
+          obtain ⟨pf, rs, rg, pg1, c⟩ := rest
+          rw [hps] at hs
+          simp only [] at hs ⊢
+          by_cases e1 : o = FUEL
+          · simp only [e1, if_true]; intro h; exact absurd (show FUEL ≥ 0 from h) (by decide)
+          · simp only [e1, if_false]
+            by_cases e2 : o = -1
+            · simp only [e2, if_true]
+              by_cases e3 : b1 = 0
+              · simp only [e3, if_true]; intro h; exact absurd (show OV_EBADLINK ≥ 0 from h) (by decide)
+              · simp only [e3, if_false]; exact ih b1 pg1
+            · simp only [e2, if_false]
+              by_cases e4 : pf ≥ 0
+              · simp only [e4, if_true]
+                intro _
+                rcases hs.2 with h | h
+                · omega
+                · exact h
+              · simp only [e4, if_false]
+                intro _
+                rcases hs.1 with h | h | h
+                · exact absurd h e1
+                · exact absurd h e2
+                · exact h
+
+theorem getPrevPageSerial_sound (ph : Phys) (begin_ : Int) (serials : List Int) (want gran0 : Int) :
+    Hoare (fun _ => True) (getPrevPageSerial ph begin_ serials want gran0) (fun r _ => r.1 ≥ 0 → Real ph r.1 r.2.1 r.2.2) := by
+  intro s _
+  have h := prevPageSerial_sound ph begin_ serials want gran0 (backFuel begin_) begin_ gran0
+  unfold getPrevPageSerial
+  cases hp : prevPageSerial ph begin_ serials want gran0 (backFuel begin_) begin_ gran0 with
+  | mk o rest =>
+      obtain ⟨sr, g, c⟩ := rest
+      rw [hp] at h
+      exact h
+
 /-- what a successful seekable `ov_open2` leaves -/
-def OpenPost (vf : VF) : Prop :=
-  ∃ n, 0 < n ∧ Shape n vf ∧ (∀ i, i < n → 0 ≤ vf.pcmlengths[2 * i + 1]!) ∧ vf.offsets[0]! = 0 ∧ 0 ≤ vf.offsets[n]!
+def OpenPost (ph : Phys) (vf : VF) : Prop :=
+  ∃ n, 0 < n ∧ Shape n vf ∧ (∀ i, i < n → 0 ≤ vf.pcmlengths[2 * i + 1]!) ∧ vf.offsets[0]! = 0 ∧ 0 ≤ vf.offsets[n]! ∧
+    ∃ p, p ∈ ph.pages ∧ p.off = vf.offsets[n]!
 
 theorem hoare_get_bind {β : Type} {P : VF → Prop} {Q : β → VF → Prop} (k : VF → M β)
     (h : ∀ s, P s → Hoare (fun t => t = s) (k s) Q) : Hoare P (get >>= k) Q := fun s hs => h s hs s rfl
@@ -242,14 +362,14 @@ theorem rawSeek_noseek (ph : Phys) (pos : Int) : Hoare (fun s => s.seekable = fa
   exact absurd (by simp [hs]) h
 
 open Vorbis.Props.C07 in
-theorem openPost_of_same (a b : VF) (h : SameFile a b) (p : OpenPost a) : OpenPost b := by
-  obtain ⟨n, hn, sh, hl, h0, he⟩ := p
+theorem openPost_of_same (ph : Phys) (a b : VF) (h : SameFile a b) (p : OpenPost ph a) : OpenPost ph b := by
+  obtain ⟨n, hn, sh, hl, h0, he, hp⟩ := p
   have e1 : a.links = b.links := congrArg Tab.links h.tab
   have e2 : a.offsets = b.offsets := congrArg Tab.offsets h.tab
   have e3 : a.dataoffsets = b.dataoffsets := congrArg Tab.dataoffsets h.tab
   have e4 : a.serialnos = b.serialnos := congrArg Tab.serialnos h.tab
   have e5 : a.pcmlengths = b.pcmlengths := congrArg Tab.pcmlengths h.tab
-  refine ⟨n, hn, ⟨?_, ?_, ?_, ?_, ?_, ?_⟩, ?_, ?_, ?_⟩
+  refine ⟨n, hn, ⟨?_, ?_, ?_, ?_, ?_, ?_⟩, ?_, ?_, ?_, ?_⟩
   · rw [← e1]; exact sh.links
   · rw [← e2]; exact sh.offs
   · rw [← e3]; exact sh.doffs
@@ -259,17 +379,18 @@ theorem openPost_of_same (a b : VF) (h : SameFile a b) (p : OpenPost a) : OpenPo
   · rw [← e5]; exact hl
   · rw [← e2]; exact h0
   · rw [← e2]; exact he
+  · rw [← e2]; exact hp
 
 open Vorbis.Props.C07 Vorbis.Proofs.FileInv in
 theorem open2_post (ph : Phys) (bos : List Int) :
-    Hoare (fun s => s.seekable = true) (open2 ph bos) (fun rc vf => rc = 0 → OpenPost vf) := by
+    Hoare (fun s => s.seekable = true) (open2 ph bos) (fun rc vf => rc = 0 → OpenPost ph vf) := by
   unfold open2
   refine hoare_get_bind _ (fun s hs => ?_)
   refine hoare_ite _ _ _ (fun _ => hoare_pure _ (fun _ _ h => absurd h (by decide))) (fun _ => ?_)
   refine hoare_bind _ _ (hoare_any _) (fun _ => ?_)
   refine hoare_ite _ _ _ (fun h => absurd h (by simp [hs])) (fun _ => ?_)
   extract_lets fail serial li
-  have hfail : ∀ (P : VF → Prop) (rc : Int), rc ≠ 0 → Hoare P (fail rc) (fun r vf => r = 0 → OpenPost vf) := by
+  have hfail : ∀ (P : VF → Prop) (rc : Int), rc ≠ 0 → Hoare P (fail rc) (fun r vf => r = 0 → OpenPost ph vf) := by
     intro P rc h
     simp only [fail]
     refine hoare_bind _ _ (hoare_any _) (fun _ => ?_)
@@ -280,8 +401,9 @@ theorem open2_post (ph : Phys) (bos : List Int) :
   obtain ⟨pcmoffset, dataoffset⟩ := x
   refine hoare_bind _ _ (hoare_any _) (fun _ => ?_)
   refine hoare_bind _ _ (hoare_any _) (fun _ => ?_)
-  refine hoare_bind _ _ (hoare_any _) (fun y => ?_)
+  refine hoare_bind _ _ (hoare_weaken _ (getPrevPageSerial_sound ph _ _ _ _) (fun _ _ => trivial) (fun _ _ h => h)) (fun y => ?_)
   obtain ⟨e, endserial, endgran⟩ := y
+  refine hoare_of_forall _ (fun t0 hreal => ?_)
   refine hoare_ite _ _ _ (fun he => hfail _ e (by omega)) (fun he => ?_)
   refine hoare_bind _ _ (hoare_weaken _ (bisectForward_post ph _ _ _ _ _ _ _ _ _) (fun _ _ => trivial) (fun _ _ h => h)) (fun rc2 => ?_)
   refine hoare_ite _ _ _ (fun _ => hfail _ _ (by decide)) (fun h2 => ?_)
@@ -290,9 +412,9 @@ theorem open2_post (ph : Phys) (bos : List Int) :
   obtain ⟨s1, hp, ht⟩ := ht
   have hrc : rc2 = 0 := by have := hp.1; omega
   obtain ⟨n, hn, sh, hnn, hoe⟩ := hp.2 hrc
-  have hpost : OpenPost t := by
+  have hpost : OpenPost ph t := by
     rw [ht]
-    refine ⟨n, by omega, ⟨sh.links, ?_, ?_, ?_, ?_, ?_⟩, ?_, ?_, ?_⟩
+    refine ⟨n, by omega, ⟨sh.links, ?_, ?_, ?_, ?_, ?_⟩, ?_, ?_, ?_, ?_⟩
     · show (s1.offsets.set! 0 0).size = n + 1
       simp [sh.offs]
     · show (s1.dataoffsets.set! 0 dataoffset).size = n
@@ -316,12 +438,16 @@ theorem open2_post (ph : Phys) (bos : List Int) :
     · show 0 ≤ (s1.offsets.set! 0 0)[n]!
       rw [get_set_ne _ _ _ _ (by omega), hoe]
       omega
+    · show ∃ p, p ∈ ph.pages ∧ p.off = (s1.offsets.set! 0 0)[n]!
+      rw [get_set_ne _ _ _ _ (by omega), hoe]
+      obtain ⟨pg, hm, ho, _, _⟩ := hreal (by show e ≥ 0; omega)
+      exact ⟨pg, hm, ho⟩
   by_cases hk : t.seekable = true
   · have same := pres_rawSeek (fileOps t hk) ph dataoffset t (sameFile_refl t)
-    refine hoare_bind (R := fun _ t' => OpenPost t') _ _ ?_ (fun rc3 => ?_)
+    refine hoare_bind (R := fun _ t' => OpenPost ph t') _ _ ?_ (fun rc3 => ?_)
     · intro x hx
       subst hx
-      exact openPost_of_same _ _ same hpost
+      exact openPost_of_same ph _ _ same hpost
     · exact hoare_ite _ _ _ (fun h3 => hfail _ rc3 h3) (fun _ => hoare_pure _ (fun _ hq _ => hq))
   · refine hoare_bind (R := fun rc3 _ => rc3 ≠ 0) _ _ ?_ (fun rc3 => ?_)
     · refine hoare_weaken _ (rawSeek_noseek ph dataoffset) (fun x hx => ?_) (fun _ _ h => h)
